@@ -208,8 +208,24 @@ func getTaggedFieldValueMap(v reflect.Value) (map[string]any, error) {
 	result := make(map[string]any, size)
 
 	for i := 0; i < size; i++ {
-		key := parseTagName(rt.Field(i))
+		field := rt.Field(i)
+		key := parseTagName(field)
 		if len(key) == 0 {
+			// 无标签的匿名内嵌结构体：其内部带标签的字段同样按列名映射
+			if embedded, ok := embeddedStruct(field, reflect.Indirect(v).Field(i)); ok {
+				inner, err := getTaggedFieldValueMap(embedded)
+				if err != nil {
+					return nil, err
+				}
+
+				if len(inner) > 0 {
+					for k, val := range inner {
+						result[k] = val
+					}
+					continue
+				}
+			}
+
 			return nil, nil
 		}
 
@@ -235,6 +251,23 @@ func getTaggedFieldValueMap(v reflect.Value) (map[string]any, error) {
 	}
 
 	return result, nil
+}
+
+// 若 field 是匿名内嵌的结构体（或指向结构体的非空指针），返回该结构体的值。
+func embeddedStruct(field reflect.StructField, value reflect.Value) (reflect.Value, bool) {
+	if !field.Anonymous || mapping.Deref(field.Type).Kind() != reflect.Struct {
+		return value, false
+	}
+
+	if value.Kind() == reflect.Ptr {
+		if value.IsNil() {
+			return value, false
+		}
+
+		value = value.Elem()
+	}
+
+	return value, true
 }
 
 func parseTagName(field reflect.StructField) string {
